@@ -142,6 +142,10 @@ fn violate(rep: &Report, cmds: &[&str], text: String, detail: J) {
 
 /// Runs the commands and compares the resulting board with the model position `want`.
 pub fn check(e: &mut Engine, rep: &Report, cmds: &[&str], want: &Pos) -> bool {
+    if rep.saturated() {
+        // enough evidence on a failing tree: do not spend time on further cases
+        return false;
+    }
     if crate::crumb::enabled() {
         crate::crumb::set(&["c04-one", "--cmds", &cmds.join("|")]);
     }
